@@ -18,6 +18,10 @@ pub struct C06Case {
     pub kb: Option<KbArgs>,
     /// the selection is arbitrary JSON (weak form) rather than type-consistent
     pub arbitrary: bool,
+    /// a further type-consistent selection presented afterwards by the SAME holder instance,
+    /// without key binding: its result must be exact as well
+    #[serde(default)]
+    pub then: Option<Value>,
 }
 
 /// An issued SD-JWT decoded for holder-side oracles: its parts and the path of every disclosure.
@@ -213,11 +217,32 @@ pub fn check(case: &C06Case, st: &mut Stats) -> Verdict {
         match check_presentation(&issued, spec.fmt, &sel.paths, &p, case.kb.as_ref()) {
             Err(f) if f.signature == "harness:void" => {
                 st.label("void:hidden_set_differs");
-                Ok(())
+                return Ok(());
             }
-            Err(f) => Err(f),
-            Ok(_) => Ok(()),
+            Err(f) => return Err(f),
+            Ok(_) => {}
         }
+        // the same holder instance asked again (other selection, no key binding)
+        if let Some(Value::Object(sel2)) = &case.then {
+            let s2 = select(&tree, sel2);
+            if s2.consistent {
+                st.label("second_presentation_on_same_holder");
+                st.sub(2);
+                if let Out::Ok(mut holder) = sut::new_holder(&issued_text, spec.fmt) {
+                    let first = sut::present_with(&mut holder, &case.selection, case.kb.as_ref());
+                    let second = sut::present_with(&mut holder, sel2, None);
+                    if first.is_ok() {
+                        let p2 = must_ok("create_presentation(second call on the same holder)", second)?;
+                        match check_presentation(&issued, spec.fmt, &s2.paths, &p2, None) {
+                            Err(f) if f.signature == "harness:void" => {}
+                            Err(f) => return Err(Failure::new(format!("second-call:{}", f.signature), format!("[second create_presentation on the same holder; the first one used selection {} and kb={:?}] {}", Value::Object(case.selection.clone()), case.kb, f.message))),
+                            Ok(_) => {}
+                        }
+                    }
+                }
+            }
+        }
+        Ok(())
     }
 }
 
